@@ -470,6 +470,7 @@ func (in *Interp) exec(p *Path, fr *Frame) Val {
 				p.end("steps", fmt.Sprintf("step budget %d exhausted in %s", p.ex.cfg.MaxSteps, fname))
 			}
 			p.funcs[fname]++
+			p.site = fname
 			switch x := ins.(type) {
 			case *ssa.Jump:
 				next = block.Succs[0]
